@@ -127,6 +127,10 @@ def verdict(a, b):
     d = differ(a, b)
     if d:
         return 'differ'
+    if a is not None and b is not None and d is None:
+        oc = ir.ord_compare(a, b)     # select trees over a few unsigned atoms: decided over all orderings
+        if oc is not None:
+            return 'same' if oc else 'differ'
     if a is not None and b is not None and ir.atoms(a) != ir.atoms(b):
         return 'differ'        # one build's value depends on something the other's does not
     return 'unknown'
